@@ -39,9 +39,9 @@ Get(n, k) == /\ n \in Present
 Count(n, k) == /\ n \in Present
                /\ last' = <<"ok", "count", IF k \in DOMAIN caches[n].count THEN caches[n].count[k] ELSE 0>>
                /\ UNCHANGED caches
-Len(n) == n \in Present /\ last' = <<"ok", "len", Cardinality(DOMAIN caches[n].store)>> /\ UNCHANGED caches
+CacheLen(n) == n \in Present /\ last' = <<"ok", "len", Cardinality(DOMAIN caches[n].store)>> /\ UNCHANGED caches
 
-Next == \E n \in Names : \/ Create(n) \/ Remove(n) \/ Has(n) \/ Len(n)
+Next == \E n \in Names : \/ Create(n) \/ Remove(n) \/ Has(n) \/ CacheLen(n)
                          \/ \E k \in Keys : Get(n, k) \/ Count(n, k) \/ \E v \in Values : Put(n, k, v)
 Spec == Init /\ [][Next]_vars
 
